@@ -50,11 +50,16 @@ func c07Ops() []c07Op {
 	// elapse: time passes and NOTHING books the borrower's interest (pending, un-stacked interest at
 	// the next op) — accrue books it at once, the way the every-block sweep does
 	ops = append(ops, c07Op{"elapse(1d)", "elapse", "", 86400})
+	// governance updates the parameters with a proposal DRAFTED at the start of the sequence (a stale
+	// snapshot of the params record, only InterestRateMax changed) — what a real proposal looks like after
+	// a voting period; and one drafted now
+	ops = append(ops, c07Op{"gov.update_params(drafted_at_start)", "gov", "", 0}, c07Op{"gov.update_params(drafted_now)", "gov", "", 1})
 	ops = append(ops, c07Op{"accrue(1d)", "accrue", "", 86400}, c07Op{"repay(half)", "repay", "", 2}, c07Op{"repay(all)", "repay", "", 1})
 	return ops
 }
 
 type c07Run struct {
+	draft    sstypes.Params // params record as read at the start of the sequence (a proposal's draft)
 	w        *World
 	st       *KStats
 	keys     map[string]bool
@@ -221,6 +226,22 @@ func (r *c07Run) apply(ctx sdk.Context, op c07Op, path []string) {
 		if rat(post.tv, post.supply).Cmp(rate0) < 0 {
 			bad("rate_fell_on_borrow", "", fmt.Sprintf("redemption rate %s -> %s", rate0.FloatString(9), rat(post.tv, post.supply).FloatString(9)))
 		}
+	case "gov":
+		draft := r.draft
+		if op.Amt == 1 {
+			draft = k.GetParams(ctx)
+		}
+		draft.InterestRateMax = draft.InterestRateMax.Add(Dec("0.01"))
+		err := r.deliver(ctx, &sstypes.MsgUpdateParams{Authority: r.w.Gov, Params: &draft})
+		if err != nil {
+			return
+		}
+		post := r.observe(ctx)
+		r.st.Clauses["gov_update_params"]++
+		if !post.tv.Equal(pre.tv) {
+			bad("gov_params_update_moved_vault_value", "", fmt.Sprintf("%s changed TotalValue %s -> %s", op.Name, pre.tv, post.tv))
+		}
+		r.others(pre, post, op, allow, bad)
 	case "accrue":
 		nctx := ctx.WithBlockTime(ctx.BlockTime().Add(time.Duration(op.Amt) * time.Second)).WithBlockHeight(ctx.BlockHeight() + 1)
 		c, write := nctx.CacheContext()
@@ -414,6 +435,7 @@ func c07RunUnit(w *World, u c07Unit, deadline time.Time, fixed []string) *KStats
 	if err != nil {
 		return &KStats{HarnessErr: err.Error()}
 	}
+	r.draft = w.App.StablestakeKeeper.GetParams(base)
 	if fixed != nil {
 		ctx := base
 		for d, name := range fixed {
